@@ -1,5 +1,5 @@
 From Coq Require Import List Bool NArith ZArith Arith Lia.
-From SliceV Require Import Base.Bytes Codec.Wire Codec.Reply Sema.Lints Sema.LintsProofs Driver.Main.
+From SliceV Require Import Base.Bytes Codec.Wire Codec.Reply Codec.PrefixProofs Sema.Lints Sema.LintsProofs Driver.Main.
 Import ListNotations.
 Local Open Scope nat_scope.
 
@@ -90,4 +90,13 @@ Proof.
   destruct (Z.eqb_spec c 0) as [->|]; cbn [failed gr_files]; [|congruence].
   destruct (dec_reply out) as [[files diags] rest|e] eqn:E; cbn [failed gr_files]; [|congruence].
   intros _. exists out, files, diags, rest. auto.
+Qed.
+
+(* a generator that exits normally after writing only a strict prefix of (the consumed part of) a valid reply is reported
+   with a decoding error for that generator and nothing of the prefix is written: a reply is never half-trusted *)
+Theorem truncated_reply_reported fs out v r k : dec_reply out = DOk v r -> k < length out - length r ->
+  exists e, run_generator fs (BRuns true false (Some 0%Z) (firstn k out)) = failed (GeDecode e) /\ e <> EFuel.
+Proof.
+  intros H Hk. destruct (truncated_reply_rejected _ _ _ H k Hk) as (e & He & Hne). exists e. split; [|exact Hne].
+  cbn [run_generator]. cbn. rewrite He. reflexivity.
 Qed.
